@@ -19,8 +19,8 @@ LINES = ['foo', '# h', '---', '===', '- a', '  b', '    c', '```', '> q', '1. x'
          '-->', '   foo', '* * *', '>']
 LINES_C01_EXTRA = ['$m$ [[a|b]]', '{{m}}', '\tt', '``` py']
 
-EDIT_SMALL = ['*', '_', '`', '[', ']', '(', ')', '<', '>', '\n', ' ', '\\', '-', '#']
-EDIT_LARGE = EDIT_SMALL + ['!', '"', "'", '&', ';', '|', '~', '=', '+', '1', '.', ':', '/', '\t', 'a', '$', '{', '}', '%',
+EDIT_SMALL = ['*', '_', '`', '[', ']', '(', ')', '<', '>', '\n', ' ', '\\', '-', '#', '{', '%']
+EDIT_LARGE = EDIT_SMALL + ['!', '"', "'", '&', ';', '|', '~', '=', '+', '1', '.', ':', '/', '\t', 'a', '$', '}', '%s', '{0}',
                            '^', '@', '    ', '```', '> ', '- ', '\n\n', '[a]: b\n', '1. ', '---', '<!--']
 
 
